@@ -311,8 +311,9 @@ def write_evidence(prop_id, tier, seed, records, info, wall, nviol):
         'wall_s': round(wall, 1),
         'violations': nviol,
     }
-    os.makedirs(os.path.join(VERIF, 'evidence'), exist_ok=True)
-    with open(os.path.join(VERIF, 'evidence', prop_id + '.json'), 'w') as f:
+    edir = os.path.join(VERIF, 'build', 'dev-evidence') if (os.environ.get('VF_ONLY') or os.environ.get('VF_REPO')) else os.path.join(VERIF, 'evidence')
+    os.makedirs(edir, exist_ok=True)   # development runs (obligation filter / alternate tree) never touch the committed evidence
+    with open(os.path.join(edir, prop_id + '.json'), 'w') as f:
         json.dump(ev, f, indent=1)
 
 
